@@ -59,6 +59,7 @@ XEvent(r) ==
     \/ /\ r.ev = "dbg" /\ Cp!DbgOK(r) /\ UNCHANGED <<gaVars, xVars>>
     \/ /\ r.ev = "macro" /\ MacroOK(r) /\ UNCHANGED <<gaVars, xVars>>
     \/ /\ r.ev = "macro_zst" /\ MacroZstOK(r) /\ UNCHANGED <<gaVars, xVars>>
+    \/ /\ r.ev = "macro_huge" /\ MacroHugeOK(r) /\ UNCHANGED <<gaVars, xVars>>
     \/ /\ r.ev = "constrt" /\ ConstRtOK(r) /\ UNCHANGED <<gaVars, xVars>>
     \/ /\ r.ev = "big" /\ BigOK(r) /\ UNCHANGED <<gaVars, xVars>>
     \/ /\ r.ev = "bigfold" /\ BigFoldOK(r) /\ UNCHANGED <<gaVars, xVars>>
